@@ -171,7 +171,7 @@ def shard_random(n, sd):
     @given(st.one_of(gen.body(max_len=18), gen.body(max_len=24, profile=gen.MEM_PROFILE),
                      gen.body(min_len=12, max_len=34, profile=DEEP_PROFILE, max_need=16, allow_split=False),
                      gen.body(max_len=14, profile=gen.ARITH_PROFILE), gen.corpus_block(),
-                     gen.kept_loads_block(), gen.two_store_block(), gen.unused_hashes_block(), gen.store_terms_block(), gen.swapped_commutative_block(), gen.operand_split_block()),
+                     gen.kept_loads_block(), gen.two_store_block(), gen.dead_load_by_rule_block(), gen.unused_hashes_block(), gen.store_terms_block(), gen.swapped_commutative_block(), gen.operand_split_block()),
            argv_strategy(), st.integers(0, 2 ** 32))
     def prop(instrs, argv, s):
         fs = check_block(instrs, argv, random.Random(s), stats, "random")
